@@ -1,6 +1,7 @@
 (* engine c10: drives ElemSplice.step_gen on the script language of harness/c10_elem_h.c and prints the same
-   canonical lines.  argv.(1) = "current" | "fixed" selects the parent-data resize variant (default: the
-   model's own switch ElemSplice.impl_pvariant).  The value [undef] prints as U.  A memory error of the C
+   canonical lines.  argv.(1) = "current" | "fixed" selects the parent-data resize variant, argv.(2) the
+   cg_poly_elements_read variant (defaults: the model's own switches ElemSplice.impl_pvariant / impl_rvariant;
+   "variant" prints those switches).  The value [undef] prints as U.  A memory error of the C
    code (RFault) prints FAULT and ends the run. *)
 open Model
 open Zutil
@@ -23,10 +24,12 @@ let take_vec toks =
 let run () =
   let pv = if Array.length Sys.argv > 1 then (match Sys.argv.(1) with "fixed" -> PFixed | "current" -> PCurrent | _ -> impl_pvariant)
            else impl_pvariant in
+  let rv = if Array.length Sys.argv > 2 then (match Sys.argv.(2) with "fixed" -> RFixed | "current" -> RCurrent | _ -> impl_rvariant)
+           else impl_rvariant in
   let st = ref None in
   let stop = ref false in
   let apply tag o =
-    match step_gen pv !st o with
+    match step_gen pv rv !st o with
     | RFault -> print_string "FAULT\n"; stop := true
     | RErr -> Printf.printf "%s 1\n" tag
     | ROk (s, out) -> st := s;
@@ -66,12 +69,13 @@ let run () =
     | ["reopen"] ->
       (match !st with
        | None -> print_string "r 0\n"
-       | Some _ -> (match step_gen pv !st OReopen with
+       | Some _ -> (match step_gen pv rv !st OReopen with
            | ROk (s, _) -> st := s; print_string "r 0\n"
            | _ -> print_string "reopenfail\n"; stop := true))
     | ["npe"] ->
       print_string ("N" ^ String.concat "" (List.init 57 (fun t ->
           match cg_npe (z_of_int t) with Some n -> " " ^ string_of_int (int_of_z n) | None -> " -1")) ^ "\n")
-    | ["variant"] -> print_string (match pv with PCurrent -> "V current\n" | PFixed -> "V fixed\n")
+    | ["variant"] -> Printf.printf "V %s %s\n" (match impl_pvariant with PCurrent -> "current" | PFixed -> "fixed")
+                       (match impl_rvariant with RCurrent -> "current" | RFixed -> "fixed")
     | _ -> Printf.printf "badline %s\n" line
   done with End_of_file -> ())
